@@ -126,6 +126,37 @@ Fixpoint cut (sep : N) (s : bytes) : bytes * option bytes :=
     is not bounded by the size of the type definition *)
 Definition max_sane_index : Z := 1048576%Z.
 
+(** BuildStructCodec's loop over the fields, parameterised by the codec lookup
+    for the field types *)
+Fixpoint build_fields (cf : ty -> bytes -> res codec) (i : nat) (l : list fdef) {struct l} : res (list (fld codec)) :=
+  match l with
+  | [] => Ok []
+  | fd :: r =>
+    if negb (fd_exported fd) then build_fields cf (S i) r else
+    let tg := fd_plenc fd in
+    if bytes_eqb tg [] then Err                                  (* no plenc tag *)
+    else if bytes_eqb tg [45] then build_fields cf (S i) r       (* "-" *)
+    else
+      let '(num, post) := cut 44 tg in
+      let postfix := match post with Some p => p | None => [] end in
+      match atoi num with
+      | None => Err
+      | Some index =>
+        if (index <? 0)%Z then Err else
+        let name := match fst (cut 44 (fd_json fd)) with [] => fd_name fd | j => j end in
+        let postfix' := if bytes_eqb postfix s_intern then [] else postfix in
+        do fc <- cf (fd_ty fd) postfix';
+        do rest <- build_fields cf (S i) r;
+        Ok (mkfld i index name fc :: rest)
+      end
+  end.
+
+Fixpoint has_dup (l : list (fld codec)) : bool :=
+  match l with
+  | [] => false
+  | f1 :: r => existsb (fun f2 => (f_index f1 =? f_index f2)%Z) r || has_dup r
+  end.
+
 (** ** CodecForTypeRegistry.  [fuel] bounds the unfolding of recursive types. *)
 Section Build.
   Variable C : cfg.
@@ -151,36 +182,10 @@ Section Build.
           | None => Err
           | Some sd =>
             (* BuildStructCodec: fields in declaration order *)
-            do fs <- (fix fields (i : nat) (l : list fdef) {struct l} : res (list (fld codec)) :=
-                        match l with
-                        | [] => Ok []
-                        | fd :: r =>
-                          if negb (fd_exported fd) then fields (S i) r else
-                          match fd_plenc fd with
-                          | [] => Err                                  (* no plenc tag *)
-                          | [45] => fields (S i) r                     (* "-" *)
-                          | tg =>
-                            let '(num, post) := cut 44 tg in
-                            let postfix := match post with Some p => p | None => [] end in
-                            match atoi num with
-                            | None => Err
-                            | Some index =>
-                              if (index <? 0)%Z then Err else
-                              let name := match fst (cut 44 (fd_json fd)) with [] => fd_name fd | j => j end in
-                              let postfix' := if bytes_eqb postfix s_intern then [] else postfix in
-                              do fc <- codec_for f (fd_ty fd) postfix';
-                              do rest <- fields (S i) r;
-                              Ok (mkfld i index name fc :: rest)
-                            end
-                          end
-                        end) O (sd_fields sd);
+            do fs <- build_fields (codec_for f) O (sd_fields sd);
             let maxidx := fold_right (fun f acc => Z.max (f_index f) acc) 0%Z fs in
             if (max_sane_index <=? maxidx)%Z then Blowup "BuildStructCodec make(fieldsByIndex, maxIndex+1)" else
-            if (fix dup (l : list (fld codec)) : bool :=
-                  match l with
-                  | [] => false
-                  | f1 :: r => existsb (fun f2 => (f_index f1 =? f_index f2)%Z) r || dup r
-                  end) fs
+            if has_dup fs
             then Err
             else Ok (CStruct (sd_name sd) (length (sd_fields sd)) fs)
           end
